@@ -45,6 +45,7 @@ func main() {
 	debug.SetMaxStack(32 << 20)
 	hx.Commands["run"] = run
 	hx.Commands["builtins-tla"] = builtinsTLA
+	hx.Commands["variables-tla"] = variablesTLA
 	hx.Main()
 }
 
@@ -67,6 +68,8 @@ type tcase struct {
 	Functional bool     `json:"functional"`
 	// lifecycle histories emitted by spec/LifecycleTotal.tla (same shape as Lifecycle.tla behaviours)
 	Reqs []lcReq `json:"reqs"`
+	// vars family
+	Name string `json:"name"`
 	// bigcalls family
 	Shape     string `json:"shape"`
 	Size      int    `json:"size"`
@@ -485,6 +488,8 @@ func run(args []string) int {
 			r = runJump(c)
 		case "bigcalls":
 			r = runBigCalls(c)
+		case "vars":
+			r = runVars(c)
 		case "initerr":
 			r = runInitErr(c)
 		case "director":
@@ -1119,4 +1124,111 @@ func runBigCalls(c *tcase) result {
 	}
 	r := serveHistory(text, ip, c.NReq)
 	return r
+}
+
+// ---------------------------------------------------------------- predefined variables read after unusual paths
+
+func variablesTLA(args []string) int {
+	fs := flag.NewFlagSet("variables-tla", flag.ExitOnError)
+	in := fs.String("yml", "", "path of __generator__/predefined.yml")
+	fs.Parse(args) // nolint:errcheck
+	data, err := os.ReadFile(*in)
+	if err != nil {
+		fmt.Fprintln(os.Stderr, err)
+		return 2
+	}
+	var y map[string]struct {
+		On  []string `yaml:"on"`
+		Get string   `yaml:"get"`
+	}
+	if err := yaml.Unmarshal(data, &y); err != nil {
+		fmt.Fprintln(os.Stderr, err)
+		return 2
+	}
+	names := []string{}
+	for n, v := range y {
+		if v.Get == "" {
+			continue
+		}
+		plain := true
+		for _, ch := range n {
+			if !(ch >= 'a' && ch <= 'z' || ch >= 'A' && ch <= 'Z' || ch >= '0' && ch <= '9' || ch == '.' || ch == '_') {
+				plain = false
+			}
+		}
+		if plain {
+			names = append(names, n)
+		}
+	}
+	sort.Strings(names)
+	var sb strings.Builder
+	sb.WriteString("---------------------------- MODULE VariablesTable ----------------------------\n")
+	sb.WriteString("(* generated from __generator__/predefined.yml by `vhc08 variables-tla` - data for Total.tla *)\n")
+	sb.WriteString("Variables == <<\n")
+	first := true
+	for _, n := range names {
+		var sc []string
+		for _, s := range y[n].On {
+			if s == "LOG" || s == "ERROR" || s == "DELIVER" {
+				sc = append(sc, fmt.Sprintf("%q", strings.ToLower(s)))
+			}
+		}
+		if len(sc) == 0 {
+			continue
+		}
+		if !first {
+			sb.WriteString(",\n")
+		}
+		first = false
+		fmt.Fprintf(&sb, "  [name |-> %q, scopes |-> {%s}]", n, strings.Join(sc, ", "))
+	}
+	// pattern-named variables (headers of every HTTP object, sub-fields) do not have a plain entry: representatives
+	for _, n := range []string{"req.http.X-A", "bereq.http.X-A", "beresp.http.X-A", "obj.http.X-A", "resp.http.X-A",
+		"bereq.http.Cookie:a", "beresp.http.Set-Cookie:a", "resp.http.Vary:a"} {
+		fmt.Fprintf(&sb, ",\n  [name |-> %q, scopes |-> {\"error\", \"deliver\", \"log\"}]", n)
+	}
+	sb.WriteString("\n>>\n=============================================================================\n")
+	fmt.Print(sb.String())
+	return 0
+}
+
+func runVars(c *tcase) result {
+	var sb strings.Builder
+	sb.WriteString(stubBackend())
+	read := fmt.Sprintf("  log %s;\n", c.Name)
+	subs := map[string]string{}
+	switch c.Path {
+	case "error-recv":
+		subs["recv"] = "  error 600;\n"
+	case "error-miss":
+		subs["recv"] = "  return(lookup);\n"
+		subs["miss"] = "  error 601;\n"
+	case "restart-after-error":
+		subs["recv"] = "  if (req.restarts == 0) {\n    error 600;\n  }\n  return(pass);\n"
+		subs["error"] = "  if (req.restarts == 0) {\n    restart;\n  }\n"
+	case "pass":
+		subs["recv"] = "  return(pass);\n"
+	case "deliver-stale":
+		subs["recv"] = "  return(lookup);\n"
+		subs["miss"] = "  return(deliver_stale);\n"
+	case "synthetic":
+		subs["recv"] = "  error 600;\n"
+		subs["error"] = "  synthetic \"body\";\n  return(deliver);\n"
+	case "error-fetch":
+		subs["recv"] = "  return(lookup);\n"
+		subs["fetch"] = "  error 602;\n"
+	default: // "normal"
+		subs["recv"] = "  return(lookup);\n"
+	}
+	// the read comes first in its subroutine
+	subs[c.Scope] = read + subs[c.Scope]
+	for _, n := range []string{"recv", "miss", "fetch", "error", "deliver", "log"} {
+		if b, ok := subs[n]; ok {
+			fmt.Fprintf(&sb, "sub vcl_%s {\n%s}\n", n, b)
+		}
+	}
+	vcl := sb.String()
+	ip := interpreter.New(context.WithResolver(resolver.NewStaticResolver("main", vcl)))
+	ip.Debugger = quiet{}
+	return serveHistory(vcl, ip, 1)
 }
